@@ -25,7 +25,7 @@ struct Observed {
     bool leftover = false;           // expectations still registered after the test ended
 };
 
-void run_cpp(const Scenario& s, Observed& ob) {
+void run_cpp(const Scenario& s, Observed& ob, bool query_leftover) {
     static unsigned char outsrc[8];
     for (int i = 0; i < 8; i++) { ob.ret[i] = -7; ob.outb[i] = 0; ob.xb[i] = 0; outsrc[i] = (unsigned char)(50 + i); }
     vf::Fixture fx;
@@ -61,7 +61,9 @@ void run_cpp(const Scenario& s, Observed& ob) {
         [&]() { mock().checkExpectations(); ob.checked = true; mock().clear(); });
     // whatever the verdict, the test leaves the mock empty: on a failure the framework clears it before the reporter ends
     // the test (the user's own clear() after checkExpectations is skipped then), otherwise the teardown's clear() ran
-    ob.leftover = mock().expectedCallsLeft();
+    // (asked only where no actual call can still be waiting for its verdict: the query finalises such a call, and a failure
+    // raised by that outside a test would end the process)
+    if (query_leftover) ob.leftover = mock().expectedCallsLeft();
     mock().clear();
     ob.failures = fx.failures();
     if (ob.failures) { ob.text = fx.output(); ob.diag = classify_message(ob.text); }
@@ -71,7 +73,10 @@ const char* ordinal(int n) { static const char* o[] = {"0th", "1st", "2nd", "3rd
 
 void check(const Scenario& s, const Alphabet& A) {
     vf::ctx("scenario");
-    Observed ob; run_cpp(s, ob);
+    if (getenv("VF_TRACE")) fprintf(stderr, "SCENARIO %s\n", render(s).c_str());
+    bool unamb0 = unambiguous(s);
+    Expected ex0; if (unamb0) ex0 = reference(s);
+    Observed ob; run_cpp(s, ob, unamb0 && (ex0.diag == PASS || ex0.diag == NOT_FULFILLED || ex0.diag == OUT_OF_ORDER));
     vf::count("executed");
     bool unamb = unambiguous(s);
     std::string desc;
